@@ -342,12 +342,12 @@ Record state := { va : Z; vmin : Z; vmax : Z; vlim : Z * Z; vrng : Z * Z; evs : 
 
 Definition in_base (L : layout) (v : Z) : bool := (l_lo L <=? v)%Z && (v <=? l_hi L)%Z.
 
-(* Module.checkLimits(value, 'a'): True = no RangeError *)
+(* Module.checkLimits(value, 'a'): True = no RangeError.  The a_limits test (if the parameter exists) is followed by
+   the a_min / a_max tests (no return in between) *)
 Definition check_limits (L : layout) (s : state) (v : Z) : bool :=
-  if l_lim L then (fst (vlim s) <=? v)%Z && (v <=? snd (vlim s))%Z
-  else
-    if l_min L && l_max L && (vmax s <? vmin s)%Z then false
-    else negb (l_min L && (v <? vmin s)%Z) && negb (l_max L && (vmax s <? v)%Z).
+  (if l_lim L then (fst (vlim s) <=? v)%Z && (v <=? snd (vlim s))%Z else true) &&
+  (if l_min L && l_max L && (vmax s <? vmin s)%Z then false
+   else negb (l_min L && (v <? vmin s)%Z) && negb (l_max L && (vmax s <? v)%Z)).
 
 Inductive op :=
 | WriteA (v : Z) | WriteMin (v : Z) | WriteMax (v : Z) | WriteLim (lo hi : Z) | WriteRng (lo hi : Z)
